@@ -274,7 +274,7 @@ func asmOpSource(name string) string {
 		}
 		return fmt.Sprintf("e.Comment(%q)", c)
 	case strings.HasSuffix(name, "(a)") || strings.HasSuffix(name, "(b)"):
-		return fmt.Sprintf("e.%s(%q)", name[:len(name)-3], name[len(name)-2:len(name)-1])
+		return fmt.Sprintf("e.%s(%q)", name[:len(name)-3], asmLabelName(name[len(name)-2:len(name)-1]))
 	}
 	return "/* " + name + " */"
 }
